@@ -41,6 +41,7 @@ def _prof(name: str) -> Prof:
                 'ax': Prof(symbol=2, svar=False, mu=False, app=False, exists=True, metavars=1),
                 'ax_collide': Prof(symbol=1, sym_names=('x0',), svar=False, mu=False, app=False, exists=False, metavars=1, mv_cfgs=((0, 0, 0, 0), (1, 0, 0, 0))),
                 'ax_big': Prof(symbol=1, svar=True, mu=True, app=False, exists=True, metavars=0, id_hi=1000),
+                'ax_ri': Prof(symbol=1, svar=False, mu=False, app=False, exists=False, metavars=2, raw_inst=True),
                 'ax_nt': Prof(symbol=2, svar=False, mu=False, app=False, exists=False, metavars=1, notations=(P.bot, P.neg)),
             }
         )
@@ -89,40 +90,45 @@ def build_modules(ctx: Any, shape: int, nax: int, prof: str, nclaims: int, size:
             m.add_axiom(a)
         return m
 
+    # the expected order is built from the harness's own lists, never read back from the module objects
     main_ax = axioms(nax)
     main = mk(main_ax)
     order: list = []
     if shape == 0:
-        order = list(main._axioms)
+        order = list(main_ax)
     elif shape == 1:
-        sub = mk(axioms(1))
+        sub_ax = axioms(1)
+        sub = mk(sub_ax)
         main.import_module(sub)
-        order = list(sub._axioms) + list(main._axioms)
+        order = sub_ax + main_ax
     elif shape == 2:
-        base = mk(axioms(1))
-        s1 = mk(axioms(1))
+        base_ax, s1_ax = axioms(1), axioms(1)
+        base = mk(base_ax)
+        s1 = mk(s1_ax)
         s2 = mk([])
         s1.import_module(base)
         s2.import_module(base)
         main.import_module(s1)
         main.import_module(s2)
-        order = list(base._axioms) + list(s1._axioms) + list(base._axioms) + list(s2._axioms) + list(main._axioms)
+        order = base_ax + s1_ax + base_ax + main_ax
     elif shape == 3:
         # transitive import through a module without axioms of its own
-        leaf = mk(axioms(1))
+        leaf_ax = axioms(1)
+        leaf = mk(leaf_ax)
         mid = mk([])
         mid.import_module(leaf)
         main.import_module(mid)
-        order = list(leaf._axioms) + list(main._axioms)
+        order = leaf_ax + main_ax
     elif shape == 4:
         # a module that is imported while still empty and gets its axioms afterwards
         sub = mk([])
         main.import_module(sub)
-        for a in axioms(1):
+        sub_ax = axioms(1)
+        for a in sub_ax:
             sub.add_axiom(a)
-        order = list(sub._axioms) + list(main._axioms)
+        order = sub_ax + main_ax
     # claims: own axioms proved by loading them
-    cands = list(main._axioms)
+    cands = list(main_ax)
     claims = []
     for _ in range(nclaims):
         if not cands:
@@ -162,8 +168,17 @@ def decode(it: Any) -> tuple:
     return [callseq.number_symbols(t, None) for t in published], claims, m, inv, len(set(vals)) == len(vals)
 
 
+class _Refused(Exception):
+    pass
+
+
 def h_module(ctx: Any, shape: int, nax: int, nclaims: int, prof: str, size: int = 3, twin: bool = False) -> None:
-    main, order, claims = build_modules(ctx, shape, nax, prof, nclaims, size)
+    try:
+        main, order, claims = build_modules(ctx, shape, nax, prof, nclaims, size)
+    except (AssertionError, KeyError, IndexError, ValueError) as e:
+        # the declaration API itself refuses a module of pairwise distinct axioms and claims
+        ctx.violation('C03.declaration-refused', f'building the module through ProofExp.add_axiom/add_claim/import_module raises {type(e).__name__}: {e}')
+        return
     results = {}
     errs: dict = {}
     for opt in (False, True):
@@ -275,6 +290,7 @@ def levels(tier: str) -> list[dict]:
         L.append(dict(label=f'module/imports={shape},axioms={nax},size<={size},claims<=2', module=M, fn='h_module', kwargs=dict(shape=shape, nax=nax, nclaims=2, prof='ax', size=size), budget_s=bud, required=nax <= 1, twin=(shape == 1 and nax == 1)))
     L.append(dict(label='module/colliding-renderings/axioms=2,size<=3', module=M, fn='h_module', kwargs=dict(shape=0, nax=2, nclaims=1, prof='ax_collide', size=3), budget_s=bud, required=True, twin=False))
     L.append(dict(label='module/ids-up-to-1000/axioms=1,size<=3', module=M, fn='h_module', kwargs=dict(shape=0, nax=1, nclaims=1, prof='ax_big', size=3), budget_s=bud, required=True, twin=False))
+    L.append(dict(label='module/partial-instantiations-any-key-order/axioms=1,size=4', module=M, fn='h_module', kwargs=dict(shape=0, nax=1, nclaims=1, prof='ax_ri', size=4), budget_s=bud, required=True, twin=False))
     L.append(dict(label='module/notation/imports=1,axioms=1', module=M, fn='h_module', kwargs=dict(shape=1, nax=1, nclaims=1, prof='ax_nt'), budget_s=bud, required=True, twin=False))
     return L
 
